@@ -19,7 +19,30 @@ package utils
 //@   pure
 //@   ensures id == onosConfigID()
 
+//@ import pathutils "github.com/onosproject/onos-config/pkg/utils/path"
+
+// a path/value map is keyed by the paths of its values
+//@ spec keyedByPath(m map[string]*configapi.PathValue) bool = forall k string :: (k in m) ==> m[k] != nil && allocated(m[k]) && m[k].Path == k
+// deleting d takes the stored path p with it
+//@ spec cascades(ch map[string]*configapi.PathValue, st map[string]*configapi.PathValue, d string, p string) bool = (d in ch) && ch[d].Deleted && (p in st) && !(p in ch) && ite(d == "/", p != "/", under(p, d))
+
 //@ func AddDeleteChildren(index, changeValues, configStore) (result)
-//@   trusted
+//@   props C03, C06
+//@   requires keyedByPath(changeValues) && keyedByPath(configStore)
 //@   modifies every("configapi.PathValue").Index, every("configapi.PathValue").Deleted
 //@   ensures result != nil && fresh(result)
+//@   ensures {C03} cascade-boundary: forall p string :: (p in result) <==> ((p in changeValues) || (exists d string :: cascades(changeValues, configStore, d, p)))
+//@   ensures {C03} own-change-wins: forall p string :: (p in changeValues) ==> result[p] == changeValues[p] && result[p].Deleted == old(changeValues[p].Deleted)
+//@   ensures {C03} cascaded-are-tombstones: forall p string :: (p in result) && !(p in changeValues) ==> result[p] == configStore[p] && result[p].Deleted && result[p].Index == index
+//@   ensures {C03} unrelated-store-entries-untouched: forall p string :: (p in configStore) && !(exists d string :: cascades(changeValues, configStore, d, p)) ==> configStore[p].Deleted == old(configStore[p].Deleted) && configStore[p].Index == old(configStore[p].Index)
+//@   ensures {C03} result-keyed-by-path: keyedByPath(result)
+//@   loop 1 invariant updChangeValues != nil && updChangeValues != changeValues && updChangeValues != configStore && keyedByPath(changeValues) && keyedByPath(configStore) && keyedByPath(updChangeValues)
+//@   loop 1 invariant forall p string :: (p in updChangeValues) <==> ((visited(1)[p] && (p in changeValues)) || (exists d string :: visited(1)[d] && cascades(changeValues, configStore, d, p)))
+//@   loop 1 invariant forall p string :: (p in changeValues) ==> changeValues[p].Deleted == old(changeValues[p].Deleted) && ((p in updChangeValues) ==> updChangeValues[p] == changeValues[p])
+//@   loop 1 invariant forall p string :: (p in updChangeValues) && !(p in changeValues) ==> updChangeValues[p] == configStore[p] && configStore[p].Deleted && configStore[p].Index == index
+//@   loop 1 invariant forall p string :: (p in configStore) && !(exists d string :: visited(1)[d] && cascades(changeValues, configStore, d, p)) ==> configStore[p].Deleted == old(configStore[p].Deleted) && configStore[p].Index == old(configStore[p].Index)
+//@   loop 2 invariant updChangeValues != nil && updChangeValues != changeValues && updChangeValues != configStore && keyedByPath(changeValues) && keyedByPath(configStore) && keyedByPath(updChangeValues) && changeValue != nil && (changeValue.Path in changeValues) && changeValues[changeValue.Path] == changeValue && changeValue.Deleted && visited(1)[changeValue.Path]
+//@   loop 2 invariant forall p string :: (p in updChangeValues) <==> ((visited(1)[p] && p != changeValue.Path && (p in changeValues)) || (exists d string :: visited(1)[d] && d != changeValue.Path && cascades(changeValues, configStore, d, p)) || (visited(2)[p] && cascades(changeValues, configStore, changeValue.Path, p)))
+//@   loop 2 invariant forall p string :: (p in changeValues) ==> changeValues[p].Deleted == old(changeValues[p].Deleted) && ((p in updChangeValues) ==> updChangeValues[p] == changeValues[p])
+//@   loop 2 invariant forall p string :: (p in updChangeValues) && !(p in changeValues) ==> updChangeValues[p] == configStore[p] && configStore[p].Deleted && configStore[p].Index == index
+//@   loop 2 invariant forall p string :: (p in configStore) && !(exists d string :: visited(1)[d] && d != changeValue.Path && cascades(changeValues, configStore, d, p)) && !(visited(2)[p] && cascades(changeValues, configStore, changeValue.Path, p)) ==> configStore[p].Deleted == old(configStore[p].Deleted) && configStore[p].Index == old(configStore[p].Index)
